@@ -24,7 +24,7 @@ ASSUMPTIONS = ['distance and residual primitives are validated independently by 
 def cases(draw, tier):
     c = draw(S.curves(2, 30 if tier == 'quick' else 100))
     return {'family': c['family'], 'pts': c['pts'], 'distance': draw(st.sampled_from(S.DISTANCES)),
-            'order': draw(st.sampled_from(S.ORDERS))}
+            'order': draw(st.sampled_from(S.ORDERS)), 'np_int': draw(st.booleans())}
 
 
 def seg_score(p, l, r, order, D):
@@ -45,7 +45,8 @@ def chain(case, rec, p, upto=None):
     n = len(p)
     out = {}
     for k in range(0, (n + 2) if upto is None else upto + 1):
-        r = rec.call(4 * n + 16, L.rdp.rdp_fixed, p, k, S.distance_of(case['distance']), S.order_of(case['order']),
+        karg = np.int64(k) if case.get('np_int') else k
+        r = rec.call(4 * n + 16, L.rdp.rdp_fixed, p, karg, S.distance_of(case['distance']), S.order_of(case['order']),
                      _site='rdp.rdp_fixed')
         if r is FAILED:
             out[k] = None
@@ -95,7 +96,7 @@ def oracle(case, rec):
             if rec.check(l < s < r, 'fixed:new-index-not-inside-a-segment', (s, l, r)):
                 with np.errstate(all='ignore'):
                     d = np.asarray(D(p[l:r + 1], p[l], p[r]), dtype=float)
-                noise = 64 * EPS * max(1.0, float(np.max(np.abs(p[l:r + 1]))))
+                noise = lib.chord_noise(p, l, r) + 1e-12 * float(np.max(d[1:-1])) + EPS   # EPS: the library's own absolute "all on the chord" guard
                 rec.check(d[s - l] >= float(np.max(d[1:-1])) - noise, 'fixed:new-index-not-farthest',
                           'k=%d segment [%d,%d] new %d d=%r max=%r' % (k, l, r, s, float(d[s - l]), float(np.max(d[1:-1]))))
                 scores = [(seg_score(p, a, b, order, D), a, b) for a, b in zip(prev[:-1], prev[1:]) if b - a >= 2]
@@ -158,7 +159,7 @@ def oracle_step(case, rec):
         return
     with np.errstate(all='ignore'):
         d = np.asarray(D(p[l:r + 1], p[l], p[r]), dtype=float)
-    noise = 64 * EPS * max(1.0, float(np.max(np.abs(p[l:r + 1]))))
+    noise = lib.chord_noise(p, l, r) + 1e-12 * float(np.max(d[1:-1])) + EPS   # EPS: the library's own absolute "all on the chord" guard
     rec.check(d[s - l] >= float(np.max(d[1:-1])) - noise, 'fixed:new-index-not-farthest', 'k=%d segment [%d,%d] new %d' % (k, l, r, s))
     scores = [(seg_score(p, a, b, order, D), a, b) for a, b in zip(prev[:-1], prev[1:]) if b - a >= 2]
     mine = seg_score(p, l, r, order, D)
